@@ -192,6 +192,17 @@ func LayoutFamily(thorough bool) []string {
 			}
 		}
 	}
+	if !thorough {
+		// one compacted record batch of five and of six records (beyond the quick bound on the log length): the surviving
+		// records' positions in the batch differ from their offset deltas by more than one; every start offset
+		for _, v := range []string{"0.11.0.0", "2.1.0"} {
+			for _, n := range []int{5, 6} {
+				for st := 0; st <= n; st++ {
+					out = append(out, fmt.Sprintf("cons?ver=%s&n=%d&cuts=0&fmts=8&codec=1&start=%d&fsz=0&ctl=0&buf=0", v, n, st))
+				}
+			}
+		}
+	}
 	return out
 }
 
